@@ -1,6 +1,6 @@
 (* The Q instance of the model, as the functions the runner calls. *)
 From Coq Require Import List ZArith QArith Bool.
-From SplipyModel Require Import Model.Num Model.BasisDef Model.BasisEval Model.Knots Model.Tensor Model.Obj Model.Deriv Model.KnotInsert Model.Reparam Model.Affine Model.Tol Model.StateCtx Model.Solve Model.Order.
+From SplipyModel Require Import Model.Num Model.BasisDef Model.BasisEval Model.Knots Model.Tensor Model.Obj Model.Deriv Model.KnotInsert Model.Reparam Model.Affine Model.Tol Model.StateCtx Model.Solve Model.Order Model.Split.
 Import ListNotations.
 
 Definition q_basis_evaluate := @basis_evaluate Q NumQ.
@@ -42,4 +42,5 @@ Definition q_basis_lower_order := @basis_lower_order Q NumQ.
 Definition q_obj_raise_order := @obj_raise_order Q NumQ.
 Definition q_obj_lower_order := @obj_lower_order Q NumQ.
 Definition q_solve := @solve Q NumQ.
+Definition q_obj_split (tol : Q) (o : obj Q) (d : nat) (ks : list Q) := @obj_split Q NumQ (S (length ks)) tol o d ks.
 Definition q_res_witness (e : err) : res unit := Err e.
